@@ -39,6 +39,7 @@ import Oracle.C04
 import S2.Measures
 import S2.Exact
 import S2.Contain
+import S2.PointCross
 namespace Oracle.C18
 open Oracle S2 S2.Exact S2.Measures
 
@@ -330,9 +331,7 @@ def angleVsMax (a b : V3) : Int :=
   else 0
 
 /-- `Point.PointCross` -/
-def pointCross (p op : V3) : V3 :=
-  let x := (p.add op).cross (op.sub p)
-  if V3.feq x ⟨F64.zero false, F64.zero false, F64.zero false⟩ then p.ortho else x
+def pointCross (p op : V3) : V3 := S2.EdgeNum.pointCross p op
 
 abbrev Trace := List (V3 × V3 × V3)
 
